@@ -294,7 +294,7 @@ class C02(Check):
             'names) x padding length (12 values incl. 0, 1, 63..65, page alignment) x record sequence (<=2 (quick) / <=3 '
             '(thorough) over 10 record kinds incl. records beginning with 1,2,7,8 zero bytes and, in '
             'non-first position, an all-zero record and records beginning with the version-2 / version-3 magic) x both entry points; plus all sequences of <=3 parses over 4 dumps through the same table '
-            'objects in 4 reuse modes (also after a parse that RAISED on a truncated dump), and with all generators created first and consumed afterwards (same parser via parse(), via parse_v2() directly, same facade); plus two parses ALIVE AT ONCE (3x3 dump pairs), their generators advanced in every interleaving; plus dumps of 63..4097 records. Oracle: events == independent decode of each record; tables == file map (last wins), '
+            'objects in 4 reuse modes (also after a parse that RAISED on a truncated dump), and with all generators created first and consumed afterwards (same parser via parse(), via parse_v2() directly, same facade); plus two parses ALIVE AT ONCE (3x3 dump pairs), their generators advanced in every interleaving; plus dumps of 2^k-1, 2^k, 2^k+1 records for k = 6..13. Oracle: events == independent decode of each record; tables == file map (last wins), '
             'identity preserved, nothing left over. non-trivial = dump has >=1 record and >=1 map entry (or history length >=2). '
             'states = distinct table contents after a parse; transitions = parse calls.')
     assumptions = ('a first record of 64 zero bytes is indistinguishable from padding and is not generated first',
@@ -353,7 +353,7 @@ class C02(Check):
                 acc.case(nontrivial=True, transitions=4, outcome=h64(('order', perm)))
                 if got != [ref_decode(r) for r in recs] or err:
                     acc.violation('v2-events-not-in-file-order', {'kind': 'long', 'perm': list(perm)}, {'err': err})
-            for n in (63, 64, 65, 511, 512, 513, 1500, 4097):
+            for n in sorted({2 ** k + d for k in range(6, 14) for d in (-1, 0, 1)} | {1500}):
                 recs = [rec(1000 + i, (i, i * 3, 7, 9), 1 + i % 3, 0x040c0004 | (i % 4)) for i in range(n)]
                 for pad in (0, 64):
                     blob = v2([ENTRIES[0]], pad, recs)
